@@ -3,6 +3,7 @@
 under /verif/seeded/<name>/ (patch.diff, demo.py, notes.md, meta.json).  Uses a scratch rsync copy of /repo, removed afterwards."""
 import json, os, shutil, subprocess, sys, tempfile
 wt, name, prop = sys.argv[1], sys.argv[2], sys.argv[3]
+benign = len(sys.argv) > 4 and sys.argv[4] == "--benign"
 src = os.path.join(wt, "_seeded")
 dst = os.path.join("/verif/seeded", name)
 os.makedirs(dst, exist_ok=True)
@@ -36,9 +37,11 @@ try:
             "repo_suite_with_change": tests_line[0] if tests_line else bt.stdout[-200:],
             "repo_head": subprocess.run(["git", "-C", "/repo", "rev-parse", "--short", "HEAD"], capture_output=True, text=True).stdout.strip(),
         },
-        "expect": "caught",
+        "expect": "survives" if benign else "caught",
     }
-    ok = applied and rc0 == 0 and rc1 not in (0, None) and bt.returncode == 0
+    if benign:
+        meta["kind"] = "behaviour-preserving refactor: every check must stay silent on it"
+    ok = applied and rc0 == 0 and ((rc1 == 0) if benign else (rc1 not in (0, None))) and bt.returncode == 0
     meta["confirmed"]["all_confirmed"] = ok
     json.dump(meta, open(os.path.join(dst, "meta.json"), "w"), indent=1)
     print(name, "confirmed" if ok else "NOT CONFIRMED", json.dumps(meta["confirmed"])[:600])
